@@ -23,6 +23,11 @@ SplitNs == <<-1, 0, 1, 2, 3>>
 VARIABLES idx, out
 vars == <<idx, out>>
 
+\* a content hash of a haystack, so that the same haystack gets the same templates in every tier
+RECURSIVE HSumAcc(_,_,_)
+HSumAcc(h, k, acc) == IF k > Len(h) THEN acc ELSE HSumAcc(h, k + 1, acc * 3 + h[k])
+HSum(h) == HSumAcc(h, 1, Len(h))
+
 HRec(prog, nc, names, h, i) ==
   LET pf == RepPieces(prog, nc, h, FALSE)
       pl == RepPieces(prog, nc, h, TRUE)
@@ -30,7 +35,7 @@ HRec(prog, nc, names, h, i) ==
       sp == [k \in DOMAIN af |-> <<af[k][1], af[k][2]>>]
       hlen == Off(h, Len(h) + 1)
       \* each haystack gets three of the templates (rotating), so all templates are covered many times
-      tsel == {((i + j) % Len(Templates)) + 1 : j \in 0..2}
+      tsel == {((i + j) % Len(Templates)) + 1 : j \in 0..2}      \* i is a function of pattern index and haystack CONTENT (not position)
       tseq == SetToSeq(tsel)
   IN [h |-> h,
       rep |-> [k \in 1..Len(tseq) |-> [kind |-> "tmpl", t |-> Templates[tseq[k]], longest |-> FALSE,
@@ -51,7 +56,7 @@ Rec(i) ==
            L    == LenFor(Cardinality(al), Budget, LCap)
            H    == SetToSeq(SeqsUpTo(al, L))
        IN [fam |-> Family, i |-> i, re |-> rn, nc |-> nc, names |-> Names(rn),
-           hs |-> [j \in 1..Len(H) |-> HRec(prog, nc, Names(rn), H[j], i + j)]]
+           hs |-> [j \in 1..Len(H) |-> HRec(prog, nc, Names(rn), H[j], i + HSum(H[j]))]]
 
 Init == idx \in Idx /\ out = <<>>
 Next == out = <<>> /\ out' = Rec(idx) /\ UNCHANGED idx
